@@ -323,6 +323,20 @@ def build(spec):
             part = p.declare_block_partition(d=d)
             c.exprs["blocks"] = [part.get_block(x0, k) for k in range(d)]
             c.partition2 = part
+        elif ex == "partition_user_con":
+            # a constraint of the user's own attached to a block partition (public BlockPartition.add_constraint), tighter
+            # than the initial condition and therefore active: it is sent, gets a multiplier, and belongs to the certificate
+            part = p.declare_block_partition(d=2)
+            c.exprs["blocks"] = [part.get_block(x0, k) for k in range(2)]
+            c.partition2 = part
+            con = (d0 <= 0.5)
+            part.add_constraint(con)
+            c.constraints["partition_user_con"] = con
+        elif ex == "tiny_active":
+            # an ACTIVE constraint all of whose coefficients (constant included) are tiny: d0 <= 0.5 written at scale 1e-4
+            con = (1e-4 * d0 <= 0.5e-4)
+            p.add_constraint(con)
+            c.constraints["tiny_active"] = con
         elif ex == "fn_constraint":
             con = (g0 ** 2 <= 2.0) if g0 is not None else (d0 <= 2)
             f.add_constraint(con, name="fn_con")
@@ -476,6 +490,9 @@ def enumerate_specs(tier, family="core"):
     for cls in ("SmoothStronglyConvexFunction", "ConvexFunction", "LipschitzOperator", "SmoothConvexFunction"):
         specs.append(dict(cls=cls, par=0, pattern="sf", metric=CLASSES[cls]["metrics"][0], init="dist1e6", n=1))
     specs.append(dict(cls="SmoothStronglyConvexFunction", par=0, pattern="sf", metric="dist", init="dist", n=1, extras=["many_points"]))
+    for cls in ("SmoothStronglyConvexFunction", "ConvexFunction", "LipschitzOperator", "SmoothConvexFunction"):
+        for ex in ("partition_user_con", "tiny_active"):
+            specs.append(dict(cls=cls, par=0, pattern="sf", metric=CLASSES[cls]["metrics"][0], init="dist", n=1, extras=[ex]))
     # multipliers spanning more than six orders of magnitude: rate 0.25^10 ~ 1e-6 on the initial condition ||x0 - x*||^2 <= 100
     specs.append(dict(cls="SmoothStronglyConvexFunction", par=3, pattern="sf", metric="dist", init="dist100", n=5))
     for par in range(1 if quick else 2):
